@@ -27,7 +27,11 @@ def kindOf (fam : String) : Kind := if fam == "leo8" then .leo8 else if fam == "
 
 def parseFlags (s : String) : Leo × Fam :=
   let ts := if s == "-" then [] else s.splitOn ","
-  let leo := if ts.contains "leo16" then Leo.gf16 else if ts.contains "leo8" then Leo.always else Leo.asNeeded
+  -- the Leopard option setters in the ORDER given: WithLeopardGF(true/false) = leo8 / leo8f, WithLeopardGF16(true/false) =
+  -- leo16 / leo16f; each call overwrites the selection (false = "as needed"), the last one decides
+  let leo := ts.foldl (fun acc t =>
+    if t == "leo16" then Leo.gf16 else if t == "leo8" then Leo.always
+    else if t == "leo16f" || t == "leo8f" then Leo.asNeeded else acc) Leo.asNeeded
   let fam := if ts.contains "custom2x3" then Fam.custom 2 3 else if ts.contains "xor" then Fam.xor
     else if ts.contains "cauchy" then Fam.cauchy else if ts.contains "par1" then Fam.par1
     else if ts.contains "jerasure" then Fam.jerasure else Fam.default
